@@ -13,6 +13,7 @@ C2S: seeded random runs recorded from the real queues (long histories, maxsize 0
 
 Binding demonstrated during development (scratch worktree, see notes/sync.md).
 """
+import os
 import random
 import zlib
 
@@ -32,19 +33,47 @@ def _differs(exp, obs):
     return sorted(k for k in set(exp) | set(obs) if exp.get(k) != obs.get(k))
 
 
-def _replay(extra, path, dims, style):
+def _needs_settle(s):
+    a = s["act"]
+    return (a == "put" and s["args"][2] == 0) or (a in ("get", "join") and s["args"][1] == 0)
+
+
+# placements of loop iterations tried for every behaviour besides "settle after every call":
+# (fuse predicate on the step index, iterations between the timers of an advance and the follow-up calls)
+def _placements(h):
+    return [(lambda i: True, 0), (lambda i: True, 1), (lambda i: (h >> (i % 16)) & 1 == 1, 2)]
+
+
+def _sig(cfg, d, placement):
+    return {"act": d["act"], "kind_": cfg["kind"], "maxsize": cfg["maxsize"], "differs": _differs(d["exp"], d["obs"]),
+            "exp_err": d["exp"]["err"], "obs_err": d["obs"]["err"], "placement": placement}
+
+
+def _replay(extra, path, dims, style, fused=True):
     cfg = extra["cfg"]
     real = QueueReal(cfg, dims[0], dims[1], dims[2], style=style)
     try:
         for i, s in enumerate(path):
             obs = canon(real.step(s["act"], s["args"]))
             if obs != s["exp"]:
-                return {"step": i, "act": s["act"], "args": s["args"], "exp": s["exp"], "obs": obs,
-                        "sig": {"act": s["act"], "kind_": cfg["kind"], "maxsize": cfg["maxsize"],
-                                "differs": _differs(s["exp"], obs), "exp_err": s["exp"]["err"], "obs_err": obs["err"]}}
-        return None
+                d = {"step": i, "act": s["act"], "args": s["args"], "exp": s["exp"], "obs": obs}
+                d["sig"] = _sig(cfg, d, "settled")
+                return d
     finally:
         real.close()
+    if not fused or len(path) < 2:
+        return None
+    h = zlib.crc32(framework.jdump([[s["act"], s["args"]] for s in path]).encode()) >> 1
+    for n, (fuse, delay) in enumerate(_placements(h)):
+        real = QueueReal(cfg, dims[0], dims[1], dims[2], style=(style + n + 1) & 1)
+        try:
+            d = sync_paths.fused_replay(real, path, _needs_settle, fuse, delay)
+        finally:
+            real.close()
+        if d is not None:
+            d["sig"] = _sig(cfg, d, "fused%d" % n)
+            return d
+    return None
 
 
 def _dims(path):
@@ -148,7 +177,7 @@ GEN_FAMILIES = [
     ("core", {"Ops": '{"put", "put_nowait", "get", "get_nowait", "cancel_put", "cancel_get"}', "Timeouts": "{999}",
               "MaxSizes": "{1, 2}", "Prios": "{1, 2}", "NJ": 1}, 5, 6),
     ("timed", {"Ops": '{"put", "get", "advance", "cancel_put", "cancel_get"}', "Timeouts": "{1, 2}", "MaxSizes": "{1}",
-               "Prios": "{1, 2}", "MaxAdvance": 2, "NJ": 1}, 5, 6),
+               "Prios": "{1}", "MaxAdvance": 2, "NJ": 1}, 5, 6),
     ("join", {"Ops": '{"put_nowait", "get_nowait", "task_done", "join", "advance", "cancel_join"}', "Timeouts": "{1, 999}",
               "MaxSizes": "{0}", "Kinds": '{"fifo"}', "MaxAdvance": 1, "NJ": 3}, 6, 7),
     ("acct", {"Ops": '{"put", "get", "task_done", "join"}', "Timeouts": "{999}", "MaxSizes": "{1}", "Prios": "{1}",
@@ -165,6 +194,7 @@ def c2s(ctx, n):
         jobs.append((i + 1, ctx.seed * 1000003 + i, TRACE_IDS, ctx.pick(150, 300), profile))
     traces = framework.pool_map(random_trace, jobs)
     ctx.validate("sync", "Trace_Queue", "Trace_Queue.cfg", traces,
+                 shards=max(1, min(int(os.environ.get("VERIF_WORKERS", "16")), len(traces) // 24)),
                  overrides={"NP": TRACE_IDS, "NG": TRACE_IDS, "NJ": max(4, TRACE_IDS // 3)}, sig_fn=_trace_sig,
                  timeout=ctx.pick(900, 3000))
 
@@ -186,7 +216,7 @@ def selftest(ctx):
         return obs
     sync_paths.binding_selftest(ctx, "Trace_Queue", "Trace_Queue.cfg", {"NP": NP_GEN, "NG": NG_GEN, "NJ": NJ_GEN},
                                 {"id": 1, "cfg": cfg, "ev": ev}, corrupt,
-                                lambda e, p: _replay({"cfg": {"kind": "lifo", "maxsize": 1}}, p, _dims(p), 0))
+                                lambda e, p: _replay({"cfg": {"kind": "lifo", "maxsize": 1}}, p, _dims(p), 0, fused=False))
 
 
 def _timed(ctx, name, t0):
@@ -222,13 +252,13 @@ def run(ctx):
     ctx.cov["exhaustive"] = True
     t0 = _timed(ctx, "s2c-enum", t0)
     # long seeded walks through larger constants
-    sync_paths.sim_replay(ctx, "Gen_Queue", "Gen_Queue.cfg", num=ctx.pick(600, 20000), depth=40,
-                          overrides={"L": 40, "NP": 14, "NG": 14, "NJ": 6, "MaxSizes": "{0, 1, 2, 3}", "Prios": "{1, 2, 3}",
+    sync_paths.sim_replay(ctx, "Gen_Queue", "Sim_Queue.cfg", num=ctx.pick(60, 2000), depth=ctx.pick(30, 40),
+                          overrides={"NP": 14, "NG": 14, "NJ": 6, "MaxSizes": "{0, 1, 2, 3}", "Prios": "{1, 2, 3}",
                                      "Timeouts": "{0, 1, 2, 3, 999}", "MaxAdvance": 3},
                           replayer=replayer)
     t0 = _timed(ctx, "s2c-sim", t0)
     # 3. code -> spec: random recorded runs validated by TLC
-    c2s(ctx, ctx.pick(240, 4000))
+    c2s(ctx, ctx.pick(96, 4000))
     t0 = _timed(ctx, "c2s", t0)
     ctx.cov["rule"] = ("paths: " + "; ".join(rule) + "; per queue class; plus seeded TLC simulation walks (depth 40) and "
                        "random recorded runs; distinct = distinct (config, operation sequence); non-trivial = length >= 2 "
